@@ -853,14 +853,14 @@ func c13Entries(npoints, nparams int, reduced, topMid bool) [][]int {
 // drivers
 
 type c13SparsePlan struct {
-	kind     string
-	nvs      []int
-	shapes   []string
-	maxSeq   int
-	modes    []ir.BuilderMode
-	reduced  bool // parameter facts {bottom, top, one middle} instead of all
-	topMid   bool // with reduced: only {top, one middle}
-	maxDev   int  // order exploration only
+	kind    string
+	nvs     []int
+	shapes  []string
+	maxSeq  int
+	modes   []ir.BuilderMode
+	reduced bool // parameter facts {bottom, top, one middle} instead of all
+	topMid  bool // with reduced: only {top, one middle}
+	maxDev  int  // order exploration only
 }
 
 func c13RunPlan(plans []c13SparsePlan, orders bool, res *vx.Result, budget time.Duration) {
